@@ -19,15 +19,14 @@ malformed `xn--` label as punycode, c7898ed), F15b (`[` `]` in the keep-quoted s
 stream environ-kernel. Known findings with a negation witness:
 * F15c (`environ_path_full_false`: urlsplit inside EnvironBuilder drops TAB/CR/LF) - the explicit
   exclusion of `environ_url_roundtrip`;
-* F15f (`from_environ_roundtrip_full_false`: `EnvironBuilder.from_environ` hands the DECODED PATH_INFO
-  to the URL-syntax `path` parameter - `%XX` is decoded once more, `#...` cut, `?` refused). Decision
-  (the reasoning is in the doc comment of `from_environ_roundtrip_full_false`): this IS a clause of the
-  property - "a path ... given to the environ builder [is] recovered exactly by the request object":
-  `from_environ` is an entry point of the environ builder, the thing given is an environ whose
-  PATH_INFO denotes a path, and `Request(from_environ(e).get_environ()).path != Request(e).path`. The
-  quantifier's "(path, query mapping, base_url) given to EnvironBuilder" is literally the call
-  `from_environ` makes. The `_partial` side is `from_environ_roundtrip` (hypotheses: exactly no `%XX`
-  escape, no `?`, no `#`, plus F15c's TAB/CR/LF and the quantifier's `//`).
+* F15f - REPAIRED in 18c1dce (`_quote_url_syntax`): `EnvironBuilder.from_environ` handed the DECODED
+  PATH_INFO / SCRIPT_NAME to the URL-syntax parameters (`%XX` decoded once more, `#...` cut, `?`
+  refused). It was a clause of the property - "a path ... given to the environ builder [is] recovered
+  exactly by the request object": `from_environ` is an entry point of the environ builder and makes
+  the quantifier's call `cls(path=, base_url=, query_string=)`. Now `from_environ_roundtrip` holds
+  for every decoded path (F15c's TAB/CR/LF is the one exclusion left:
+  `from_environ_roundtrip_needs_no_tab`) and `from_environ_f15f_regression` pins the former failing
+  inputs; stream from-environ keeps them in its corpus.
 
 Clause -> theorem map (property text, clause by clause):
 * "IRI -> URI always yields pure ASCII": `quote_ascii`, `iriToUri_ascii`, `iriToUriText_ascii_idempotent`
@@ -44,7 +43,7 @@ Clause -> theorem map (property text, clause by clause):
 * "a path ... given to the environ builder [is] recovered (path)": `environ_url_roundtrip` (exclusions:
   `environ_url_roundtrip_exclusions_needed`, `environ_path_full_false` = F15c), `environ_path_roundtrip`,
   `dance_roundtrip`, `unquote_quote_inverse`; through `from_environ`: `from_environ_roundtrip`,
-  `from_environ_roundtrip_full_false` = F15f, `from_environ_reinterprets_decoded_path`
+  `from_environ_f15f_regression` (F15f, repaired), `from_environ_roundtrip_needs_no_tab` (F15c)
 * "query ... recovered (args)": `builder_args_roundtrip`, `builder_text_args`, `builder_query_forms`,
   `builder_path_and_query_refused`, `builder_str_form`, `urlencode_safe_ok`, `unquote_models_agree`
 * "base URL ... recovered (host)": `environ_url_roundtrip` (host clause), `get_host_on_hostport`,
@@ -76,6 +75,7 @@ import WzVerif.Lemmas.UrlFamily
 import WzVerif.Lemmas.UrlFamilySplit
 import WzVerif.Lemmas.UrlFromEnviron
 import WzVerif.Lemmas.UrlNoEscape
+import WzVerif.Lemmas.UrlFromEnvironFix
 import WzVerif.Lemmas.UrlQueryDenote
 import WzVerif.Lemmas.UrlDispatch
 import WzVerif.Lemmas.UrlProxyFix
@@ -780,78 +780,47 @@ theorem full_path_keeps_question_mark (scheme host root p qs : Str) :
 
 example : requestFullPath (danceEnviron "http".toList "h".toList [] "/é".toList []) = some "/é?".toList := by decide
 
-/-- **`EnvironBuilder.from_environ` round trip** (the `_partial` side of known finding F15f). For the
-environ a builder produces from arguments of the property's domain (host in its ASCII form; `PathArg`:
-a path starting with exactly one `/`, without `?`, `#` and TAB / CR / LF - F15c -; `BaseArg`, root
-without `%`) whose path contains **no `%XX` escape** (`noEscape`: no `%` followed by two hex digits - a
-literal `%` that starts no escape, as in `/100%`, is inside the domain): `from_environ(environ)`
-succeeds, and the builder it returns builds the same SCRIPT_NAME, PATH_INFO, QUERY_STRING, HTTP_HOST
-and wsgi.url_scheme again (`_make_base_url`, the decoding dances and the whole of `__init__` /
-`get_environ` in between) - hence the same `Request.path` / `args` / `host` / `url`. The excluded
-paths are exactly those of F15f (`%XX`, `?`, `#`), F15c (TAB / CR / LF) and the quantifier's `//`;
-each exclusion is needed: `from_environ_roundtrip_full_false`, `from_environ_reinterprets_decoded_path`. -/
+/-- **`EnvironBuilder.from_environ` round trip** (after repair 18c1dce of F15f: `_quote_url_syntax`
+quotes `%`, `?`, `#` of the decoded PATH_INFO / SCRIPT_NAME before they reach the URL-syntax
+parameters of `__init__`). For the environ a builder produces from a base URL of the property's
+domain (host in its ASCII form, `BaseArg`, root without `%`) and ANY decoded path that starts with
+exactly one `/` and contains no TAB / CR / LF (`EnvPath`; F15c is the one exclusion left, needed:
+`from_environ_roundtrip_needs_no_tab`) - literal `%`, `%XX` sequences, `?` and `#` included -:
+`from_environ(environ)` succeeds, and the builder it returns builds the same SCRIPT_NAME, PATH_INFO,
+QUERY_STRING, HTTP_HOST and wsgi.url_scheme again (`_quote_url_syntax`, `_make_base_url`, the
+decoding dances and the whole of `__init__` / `get_environ` in between) - hence the same
+`Request.path` / `args` / `host` / `url`. The former hypothesis "no `%XX` escape in the path" is gone. -/
 theorem from_environ_roundtrip (o : UrlOpaque) (laws : HostLaws o) (scheme ha root p qs : Str)
-    (port : Option Nat) (b : BaseArg o scheme ha port root) (hp : PathArg p) (hpp : noEscape p = true)
+    (port : Option Nat) (b : BaseArg o scheme ha port root) (hp : EnvPath p)
     (hrp : '%' ∉ root) (hfix : o.hostToAscii ha = some ha) :
     ∃ b', fromEnviron o (danceEnviron scheme (hostBr ha ++ portText port) (rstripSlash root) p qs) = .ok b' ∧
       b'.environ.toEnviron = danceEnviron scheme (hostBr ha ++ portText port) (rstripSlash root) p qs :=
-  Wz.Url.from_environ_roundtrip_noEscape laws qs b hp hpp hrp hfix
+  Wz.Url.from_environ_roundtrip_fixed laws qs b hp hrp hfix
 
-example : noEscape "/100%/%zz/%4/é x".toList = true ∧ noEscape "/%41".toList = false ∧
-    noEscape "/a%2".toList = true := by decide
+example : EnvPath "/%41/a?b#c/100%".toList :=
+  ⟨by decide, by decide, by intro c hc; revert c hc; decide⟩
 
 example : ((fromEnviron plainOpaque (danceEnviron "https".toList "example.com:8443".toList "/ap p".toList
     "/é x".toList "q=é".toList)).toOption.map (fun b => (b.baseUrl, b.environ.pathInfo, b.environ.scriptName)))
     = some ("https://example.com:8443/ap%20p/".toList, encodingDance "/é x".toList, "/ap p".toList) := by decide
 
-/-- a literal `%` that starts no escape goes round: the environ of a request for `/100%25/%25zz` -/
-example : ((fromEnviron plainOpaque (danceEnviron "http".toList "localhost".toList [] "/100%/%zz".toList
-    [])).toOption.map (fun b => b.environ.pathInfo)) = some "/100%/%zz".toList := by decide
-
-/-- **Known finding F15f, as a theorem about the model**: `EnvironBuilder.from_environ` does NOT turn
-every environ back into a builder of the same request. It hands the DECODED PATH_INFO to `__init__`'s
-`path` parameter, which reads `%XX`, `?` and `#` as URL syntax: for the environ of a request for
-`/%2541` (PATH_INFO `/%41`, `Request.path == "/%41"`) the new builder's environ has PATH_INFO `/A`.
-The unrestricted round trip - for every PATH_INFO that starts with exactly one `/` - is false.
-
-Why this is a finding of C15 and not merely an observation: the property says "a path, query and base
-URL given to the environ builder are recovered exactly by the request object". `from_environ` is an
-entry point of the environ builder; what is given to it is an environ, whose PATH_INFO *denotes a
-path* (decoded text - unlike the constructor's `path`, whose docstring makes it URL syntax, so that
-`%XX` / `?` / `#` there are outside the domain of `environ_url_roundtrip`). `Request(from_environ(e)
-.get_environ()).path != Request(e).path` therefore is "a path given to the environ builder is not
-recovered by the request". The quantifier text enumerates the constructor form "(path, query mapping,
-base_url) given to EnvironBuilder"; `from_environ` literally makes that call (`cls(path=..., base_url=
-..., query_string=...)`) with the decoded PATH_INFO as `path`, so the only reading under which F15f is
-outside the statement is "the caller of `from_environ` meant PATH_INFO as URL syntax", which
-contradicts WSGI and the method's own changelog entry ("passed through the WSGI decoding dance to
-avoid double encoding"). Registered as F15f (stream from-environ, findings/F15f.json). SCRIPT_NAME
-goes through the URL-syntax `base_url` in the same way (not varied by the stream).
-Proposed repair: quote `%`, `?`, `#` - and TAB / CR / LF, F15c - in the decoded PATH_INFO (and
-SCRIPT_NAME) before handing them to `cls(...)`, e.g. `quote(path, safe="!$&'()*+,/:;=@")`. -/
-theorem from_environ_roundtrip_full_false :
-    ¬ (∀ p : Str, p.head? = some '/' → (p.drop 1).head? ≠ some '/' →
-        ∃ b', fromEnviron plainOpaque (danceEnviron "http".toList "localhost".toList [] p []) = .ok b' ∧
-          b'.environ.toEnviron = danceEnviron "http".toList "localhost".toList [] p []) := by
-  intro h
-  obtain ⟨b', h1, h2⟩ := h "/%41".toList (by decide) (by decide)
-  have hm : (fromEnviron plainOpaque (danceEnviron "http".toList "localhost".toList [] "/%41".toList [])).toOption.map
-      (fun b => b.environ.pathInfo) = some "/A".toList := by decide
-  rw [h1] at hm
-  have h3 : b'.environ.pathInfo = "/A".toList := by simpa [Except.toOption] using hm
-  have h4 : b'.environ.toEnviron.pathInfo = "/%41".toList := by rw [h2]; decide
-  rw [h4] at h3
-  exact absurd h3 (by decide)
-
-/-- the three shapes of F15f (and why `noEscape`, no `?`, no `#` are all needed in
-`from_environ_roundtrip`): the environ of a request for `/%2541` (PATH_INFO `/%41`) comes back with
-PATH_INFO `/A`, the one for `/a%3Fb` (PATH_INFO `/a?b`) is refused with ValueError, the one for
-`/a%23b` loses `#b`. -/
-theorem from_environ_reinterprets_decoded_path :
+/-- **Regression for F15f** (fixed in 18c1dce; was `from_environ_roundtrip_full_false`): the former
+failing inputs round-trip. The environ of a request for `/%2541` (PATH_INFO `/%41`) comes back with
+PATH_INFO `/%41` - not `/A` -, the one for `/a%3Fb` (PATH_INFO `/a?b`) is accepted - not refused
+with ValueError - and keeps `?b`, the one for `/a%23b` keeps `#b`; a literal `%` goes round as
+before. -/
+theorem from_environ_f15f_regression :
     let run := fun (p : String) =>
       (fromEnviron plainOpaque (danceEnviron "http".toList "localhost".toList [] p.toList [])).toOption.map
         (fun b => String.ofList b.environ.pathInfo)
-    run "/%41" = some "/A" ∧ run "/a?b" = none ∧ run "/a#b" = some "/a" := by decide
+    run "/%41" = some "/%41" ∧ run "/a?b" = some "/a?b" ∧ run "/a#b" = some "/a#b" ∧
+    run "/100%/%zz" = some "/100%/%zz" ∧ run "/%2541" = some "/%2541" := by decide
+
+/-- the remaining exclusion is needed (known finding F15c, `urlsplit` inside `__init__`): a TAB in the
+decoded path is still removed on the way through `from_environ` -/
+theorem from_environ_roundtrip_needs_no_tab :
+    (fromEnviron plainOpaque (danceEnviron "http".toList "localhost".toList [] "/a\tb".toList [])).toOption.map
+      (fun b => String.ofList b.environ.pathInfo) = some "/ab" := by decide
 
 /-! ### `Request.url` / `base_url` / `root_url` (`url_root`) / `host_url` -/
 
